@@ -16,7 +16,7 @@ def run(tier):
              ("tree", gwfocus.tree, ["1.4", "2.2"], ["sync", "async"], True)]
     chk = gwcheck.GwCheck(PID, tier, PROJ, focus=focus, flavours=["sync", "async"], persist=True, exts=("json", "pickle"),
                           mc_props=PROPS, mc_invs=INVS, mc_depth_quick=4, mc_depth_thorough=5, sim_depth=14,
-                          gen_opts=lambda i: {"prefix": "mix", "tick_p": 0.10, "restart_p": 0.08, "no_callback": i % 3 == 1},
+                          gen_opts=lambda i: {"prefix": "mix", "tick_p": 0.10, "restart_p": 0.08, "no_callback": i % 3 == 1, "mqtt": i % 4 == 2},
                           n_quick=90, nontrivial=_persist_event)
     return chk.run()
 
